@@ -62,7 +62,7 @@ def _make_global(repo, chk, gf):
         g = new_codegen(CG)
         g.word_size = ws
         g.stack = ns['StackPoint']()
-        g.state_data, g.const_data, g.numbered_labels, g.string_labels = {}, {}, {}, {}
+        pass        # book-keeping tables come from the dataclass field factories (new_codegen)
         return g
 
     def items(d):
@@ -307,7 +307,7 @@ def run(repo, chk):
     for n in range(0, 20):
         for pattern in (lambda i: True, lambda i: i % 3 == 0, lambda i: i == n - 1, lambda i: i % 8 == 7):
             bits = [pattern(i) for i in range(n)]
-            got = CG.pack_bools(bits)
+            got = (getattr(CG, 'pack_bools', None) or gen['pack_bools'])(bits)      # a static method, or moved to module level
             want = [0] * ((n + 7) >> 3)
             for i, b in enumerate(bits):
                 if b:
@@ -346,8 +346,8 @@ def run(repo, chk):
         good = good and len(orr) == len(evals) and not other_writes
         st = [e for e in ev if e.kind == 'emit' and e.ctor == 'asm.Sbso']
         good = good and all([src(a) for a in e.args] == ['asm.State(self.ap)', 'asm.IntLiteral(offset)', 'prev'] for e in st)
-        fnd = [src(e.value) for e in ev if e.kind == 'assign' and e.target == 'foundation']
-        good = good and fnd == ['self.pack_bools([isinstance(el_expr, ast.BoolValue) and el_expr.data for el_expr in expr.values])']
+        fnd = [src(e.value).replace('self.pack_bools(', 'pack_bools(') for e in ev if e.kind == 'assign' and e.target == 'foundation']
+        good = good and fnd == ['pack_bools([isinstance(el_expr, ast.BoolValue) and el_expr.data for el_expr in expr.values])']
         dyn_ok = good if dyn_ok is None else (dyn_ok and good)
     chk.expect(dyn_ok is True, 'C13.B1', 'eval_expr[ArrayLiteral/bool] dynamic packer',
                'non-constant element i of a byte must be shifted left by i (zip(range(8), ...)) and OR-ed into the byte that '
@@ -401,7 +401,7 @@ def run(repo, chk):
             for dt in (DTs.INT, DTs.BYTE, DTs.BOOL):
                 g = new_codegen(CG)
                 g.word_size = ws
-                g.const_data, g.state_data, g.numbered_labels = {}, {}, {}
+                pass        # book-keeping tables come from the dataclass field factories (new_codegen)
                 directive = object()
                 try:
                     ref = g.add_global_array(const, dt, 'arr', 5, directive, None)
